@@ -25,7 +25,8 @@ GEN = ['Headers', 'SpecColumns', 'FileNames', 'RecordSchemas']
 RULE = ('each case = a generated dataset, a layout seed and what the process loaded just before (nothing / a 1.0 directory / a refused 2.0 directory) (columns comment first / missing / after some data rows); all 14 top-level files, the three descriptor files and points3d are '
         're-laid-out with per-line random choices (0-3 blanks of space/tab on each side of each field, comment/blank lines between '
         'rows, row order shuffled where the format does not number rows, LF/CRLF/CR per line, 0-3 leading zeros on timestamps, other decimal spellings of the same pose / record floats (1. .5 +1.0 1E0 1.00), point '
-        'ids and feature ids); distinct non-trivial = distinct (dataset, layout seed) with at least 5 files')
+        'ids and feature ids); a dataset with matches is also loaded with a pairs file listing every stored pair (half reversed) and one that is '
+        'not stored; distinct non-trivial = distinct (dataset, layout seed) with at least 5 files')
 ASSUMPTIONS = [
     'specreader.py is my transcription of the specification (column types, comment / blank rules); the column ORDER is not trusted: '
     'it is scraped from the .adoc on every run (Gen/SpecColumns.lean) and proved equal to the code\'s (columns_match_specification)',
@@ -211,6 +212,21 @@ def run_real(case):
                 except Exception:
                     pass            # a newer version is refused: fine
             res['reloaded'] = kgen.describe(kapture_from_dir(b_dir))
+            res['reloaded_pairs'] = None
+            if res['orig']['matches']:
+                # the same directory loaded WITH a pairs file (image_name1, image_name2, score per line, in the same text format)
+                # that lists every stored pair, half of them the other way round, plus a pair that is not stored: the same dataset
+                prng = random.Random(case['layout'] + 1)
+                pairs = sorted({tuple(pq) for ps in res['orig']['matches'].values() for pq in ps})
+                lines = ['# kapture format: 1.1', '# query_image, map_image, score']
+                for a_, b_ in pairs:
+                    a_, b_ = (b_, a_) if prng.random() < 0.5 else (a_, b_)
+                    lines.append(f'{a_}, {b_}, {prng.random()}')
+                lines.append('ghost_a.jpg, ghost_b.jpg, 0.5')
+                pf = os.path.join(base, 'pairs.txt')
+                with open(pf, 'w') as f:
+                    f.write('\n'.join(lines) + '\n')
+                res['reloaded_pairs'] = kgen.describe(kapture_from_dir(b_dir, matches_pairs_file_path=pf))
             res['error'] = None
         except Exception as e:
             import traceback
@@ -283,6 +299,10 @@ def oracle(case):
     d = same(r['orig'], r['reloaded'], 'reload of the re-laid-out files')
     if d:
         return {'signature': 'conformant-file-misread', 'detail': d}
+    if r.get('reloaded_pairs') is not None:
+        d = same(r['orig'], r['reloaded_pairs'], 'reload with a pairs file listing every stored pair')
+        if d:
+            return {'signature': 'pairs-file-misread', 'detail': d}
     return None
 
 
